@@ -31,7 +31,7 @@ Definition C08_full : Prop := forall (compact : bool) (now : Z) (cs : list (Z * 
        sequence numbers on one side (every command moves head or tail by at most MAX_BATCH_NUM; invariant LBS);
      * [increasing 0 cs]: needed ONLY under wait_compact, and there only because the generation of a collection
        re-created after a clear or after its expiry is the timestamp of the re-creation (see (1b) for local_deletion
-       and C08_full_refuted / C08_equal_timestamps_expiry_refuted for equal timestamps). *)
+       and C08_full_refuted for equal timestamps). *)
 Theorem C08_all_commands : forall (compact : bool) (now : Z) (cs : list (Z * cmd)),
   increasing 0 cs -> short_enough cs ->
   map_trace compact now cs m_init = spec_trace compact now cs s_init.
@@ -44,19 +44,20 @@ Theorem C08_all_commands_local_any_timestamps : forall (now : Z) (cs : list (Z *
 Proof. exact local_all_sequences_ref. Qed.
 Print Assumptions C08_all_commands_local_any_timestamps.
 
-(* (1c) the unconditional statement is FALSE of the faithful model: under wait_compact a set cleared and re-created
-   at the timestamp of its creation enumerates the cleared member again (SADD k a; SCLEAR k; SADD k b; SMEMBERS k
-   all at ts 5).  Replayed on the Go code with one multi-request list; open finding of C10. *)
+(* (1c) the unconditional statement is FALSE of the faithful model: under wait_compact a hash that expires in the
+   second of its creation and is written again at the same timestamp is renewed with the generation it already had
+   and shows the expired field again (HSET k a 1; HEXPIRE k 0; HSET k b 1; HKEYS k all at ts 5 s).  Open finding of
+   C10 (generation = timestamp). *)
 Theorem C08_full_refuted : ~ C08_full.
-Proof. intros H. exact (equal_ts_breaks (H true 0 equal_ts_cs)). Qed.
+Proof. intros H. exact (equal_ts_expire_breaks (H true 0 equal_ts_expire_cs)). Qed.
 Print Assumptions C08_full_refuted.
 
-(* (1d) the same collision reached through expiry: HSET k a 1; HEXPIRE k 0; HSET k b 1; HKEYS k all at ts 5 s: the
-   hash expired in the second of its creation is renewed with the generation it already had and shows field a again *)
-Theorem C08_equal_timestamps_expiry_refuted :
-  map_trace true 0 equal_ts_expire_cs m_init <> spec_trace true 0 equal_ts_expire_cs s_init.
-Proof. exact equal_ts_expire_breaks. Qed.
-Print Assumptions C08_equal_timestamps_expiry_refuted.
+(* (1d) the clear variant of that collision (SADD k a; SCLEAR k; SADD k b; SMEMBERS k at one timestamp), reported in
+   round 1, is repaired in /repo (1dcd66e): the model follows the repaired code and agrees with the reference *)
+Theorem C08_equal_timestamps_clear_repaired :
+  map_trace true 0 equal_ts_cs m_init = spec_trace true 0 equal_ts_cs s_init.
+Proof. exact equal_ts_clear_fixed. Qed.
+Print Assumptions C08_equal_timestamps_clear_repaired.
 
 (* (2) the resulting data: after such a sequence every stored hash / set / sorted-set record abstracts (as a finite
    map, current generation only) to the Spec value at the same key, every list record abstracts (values at the
